@@ -278,6 +278,24 @@ fn frames_strategy(max: usize) -> impl Strategy<Value = Vec<Vec<u8>>> {
     proptest::collection::vec((prop_oneof![1 => Just(b'1'), 2 => Just(b'2'), 4 => Just(b'3')], (0u8..5).prop_flat_map(body)), 1..=max).prop_map(|v| v.into_iter().map(|(k, b)| raw_frame(k, &b)).collect())
 }
 
+/// a long stream, a pure function of (profile, n, salt)
+pub fn scale_frames(profile: u8, n: usize, salt: u64) -> Vec<Vec<u8>> {
+    let mut r = vcore::ev::SplitMix::new(salt);
+    (0..n)
+        .map(|_| {
+            let k = match profile % 4 {
+                0 => if r.below(10) < 9 { b'1' } else { [b'2', b'3'][r.below(2) as usize] },
+                1 => b'1',
+                2 => [b'1', b'2', b'2', b'3', b'3', b'3', b'3'][r.below(7) as usize],
+                _ => b'3',
+            };
+            let thr = if profile % 4 == 3 { 25 } else { 4 };
+            let body: Vec<u8> = (0..21).map(|_| if r.below(100) < thr { 0x1a } else { r.next() as u8 }).collect();
+            raw_frame(k, &body)
+        })
+        .collect()
+}
+
 /// positions of the second byte of every escape pair in the escaped stream
 fn escape_pair_cuts(frames: &[Vec<u8>]) -> Vec<usize> {
     let mut cuts = vec![];
@@ -299,7 +317,7 @@ fn escape_pair_cuts(frames: &[Vec<u8>]) -> Vec<usize> {
 }
 
 pub fn run(ctx: &Ctx) {
-    ctx.set_rule("sequences of 1-12 well-formed Beast frames (types '1' 11 B, '2' 16 B, '3' 23 B; payload bytes with 0x1A density 0/10/25/50/100 %, forced runs of 2-6 consecutive 0x1A, 0x1A as first/last payload byte; escaped by doubling) x chunkings: every single cut, every pair of cuts (streams <= 150 B; thorough <= 260 B), cuts inside every escape pair, random multi-cuts, 1-byte dribble, 1024-byte reads of long streams. Driven through the real next_msg via the cfg-guarded in-memory DataSource. Oracle: yielded frames are a byte-exact prefix of the sent list, fewer than 23 escaped bytes stay pending, and the result equals whole-stream delivery; a 25-line reference deframer cross-checks the generated frame list. Non-trivial = at least one escaped byte and a cut strictly inside a frame; distinct by hash of (frames, cuts). The same oracle also judges the reader's real socket arms: sequences written chunk by chunk into a loopback TCP connection that is closed at the end, and sent as loopback UDP datagrams (one datagram per read, exact chunk boundaries, incl. cuts inside every escape pair).");
+    ctx.set_rule("sequences of 1-12 well-formed Beast frames (types '1' 11 B, '2' 16 B, '3' 23 B; payload bytes with 0x1A density 0/10/25/50/100 %, forced runs of 2-6 consecutive 0x1A, 0x1A as first/last payload byte; escaped by doubling) x chunkings: every single cut, every pair of cuts (streams <= 150 B; thorough <= 260 B), cuts inside every escape pair, random multi-cuts, 1-byte dribble, 1024-byte reads of long streams; long streams of 70-6000 frames (up to 140 KB; 90 % / 100 % Mode A/C so that one read holds more than 64 frames, mixed, long frames with 25 % 0x1A) delivered whole (1024-byte reads), in reads of 1000 / 700 / 93 bytes, just over 1024, or at random cuts. Driven through the real next_msg via the cfg-guarded in-memory DataSource. Oracle: yielded frames are a byte-exact prefix of the sent list, fewer than 23 escaped bytes stay pending, and the result equals whole-stream delivery; a 25-line reference deframer cross-checks the generated frame list. Non-trivial = at least one escaped byte and a cut strictly inside a frame; distinct by hash of (frames, cuts). The same oracle also judges the reader's real socket arms: sequences written chunk by chunk into a loopback TCP connection that is closed at the end, and sent as loopback UDP datagrams (one datagram per read, exact chunk boundaries, incl. cuts inside every escape pair).");
     ctx.assume("hook H1 (DataSource::Chunks) delivers chunks like the websocket arm: copied into the 1024-byte buffer, stream ends when the queue is empty");
     let n = ctx.tier.pick(4000u32, 48000u32);
     let max_exh = ctx.tier.pick(150usize, 260usize);
@@ -349,6 +367,28 @@ pub fn run(ctx: &Ctx) {
             let cuts: Vec<usize> = idx.iter().map(|i| 1 + i.index(len.max(2) - 1)).collect();
             ctx.class(if len > 1024 { "sequence: longer than one 1024-byte read" } else { "sequence: long" });
             check_case(ctx, &long, &cuts)
+        });
+    });
+    // scale: hundreds to thousands of frames per stream (streams beyond 64 KiB), dense Mode A/C traffic (more than 64
+    // frames in one 1024-byte read), reads of exactly the buffer size
+    (0..shards).into_par_iter().for_each(|s| {
+        let shape = (0u8..4, prop_oneof![70usize..400, 400usize..6000], any::<u64>(), 0u8..6, proptest::collection::vec(any::<proptest::sample::Index>(), 0..6));
+        run_prop(ctx, &format!("scale-{s}"), ctx.tier.pick(192u32, 3200u32) / shards, shape, |(profile, n, salt, chunking, idx)| {
+            let frames = scale_frames(*profile, *n, *salt);
+            let len: usize = frames.iter().map(|f| escape(f).len()).sum();
+            let cuts: Vec<usize> = match chunking {
+                0 => vec![],
+                1 => (1..).map(|k| k * 1000).take_while(|c| *c < len).collect(),
+                2 => (1..).map(|k| k * 700).take_while(|c| *c < len).collect(),
+                3 => (1..).map(|k| k * 93).take_while(|c| *c < len).collect(),
+                4 => (1..).map(|k| k * 1024 + (k % 3)).take_while(|c| *c < len).collect(),
+                _ => idx.iter().map(|i| 1 + i.index(len.max(2) - 1)).collect(),
+            };
+            ctx.class(["long stream: 90 % Mode A/C", "long stream: Mode A/C only", "long stream: mixed types", "long stream: long frames, many escapes"][*profile as usize % 4]);
+            if len > 65_536 {
+                ctx.class("long stream: beyond 64 KiB");
+            }
+            check_case(ctx, &frames, &cuts)
         });
     });
     // the reader's real socket arms: loopback TCP (closed at the end) and loopback UDP (one datagram per read)
